@@ -533,6 +533,44 @@ impl PoolCase {
         ann
     }
 
+    /// `apply` without the O(retained state) output line and without the finalization-log delta (deep-chain cases:
+    /// thousands of ops on one pool); certificates and blocks only
+    pub fn apply_quiet(&mut self, rt: &tokio::runtime::Runtime, f: &mut CertFactory, op: &POp) -> PoolStepOut {
+        let mut out = PoolStepOut::default();
+        let res: Result<String, String> = match op {
+            POp::Cert(k, s, h) => {
+                let c = f.cert(*k, *s, *h);
+                catch(|| {
+                    rt.block_on(async {
+                        match self.pool.add_cert(c).await {
+                            Ok(()) => "ok".to_string(),
+                            Err(alpenglow::consensus::AddCertError::SlotOutOfBounds) => "oob".to_string(),
+                            Err(alpenglow::consensus::AddCertError::Duplicate) => "dup".to_string(),
+                        }
+                    })
+                })
+            }
+            POp::Block(b, p) => catch(|| {
+                rt.block_on(async {
+                    self.pool.add_block(bid(*b), bid(*p)).await;
+                    "ok".to_string()
+                })
+            }),
+            _ => unreachable!("apply_quiet: certificates and blocks only"),
+        };
+        match res {
+            Err(_) => {
+                self.dead = true;
+                out.verdict = "panic".into();
+            }
+            Ok(v) => {
+                out.announced = self.drain();
+                out.verdict = v;
+            }
+        }
+        out
+    }
+
     /// runs one op on the real pool; returns the canonical output line and the observations
     pub fn apply(&mut self, rt: &tokio::runtime::Runtime, f: &mut CertFactory, op: &POp) -> PoolStepOut {
         let mut out = PoolStepOut::default();
